@@ -241,13 +241,15 @@ func init() {
 			Assumptions: []string{
 				"'bounded time' = 5 fake seconds plus injected descheduling, with read delay <= 1 ms",
 				"with a transport whose blocked read never returns only bounded Close and absence of panics are demanded",
-				"NETCONF driver states are covered by the NETCONF leg (see components)",
+				"legs N / NR run NETCONF-driver close states (scenario family C07N) controlled and under the race detector",
 			},
 			QuickRuns: 3000,
 			ThoroughS: 600,
 			Legs: []Leg{
-				{Name: "D", QuickRuns: 3000, Share: 0.7},
-				{Name: "R", Race: true, QuickRuns: 320, Share: 0.3, Procs: 4},
+				{Name: "D", QuickRuns: 3000, Share: 0.5},
+				{Name: "R", Race: true, QuickRuns: 320, Share: 0.2, Procs: 4},
+				{Name: "N", Prop: "C07N", QuickRuns: 1500, Share: 0.2},
+				{Name: "NR", Prop: "C07N", Race: true, QuickRuns: 200, Share: 0.1, Procs: 4},
 			},
 		},
 		Gen:    genC07,
